@@ -1,9 +1,11 @@
 use crate::obl::Obl;
+pub mod c02;
 pub mod c08;
 pub mod c14;
 
 pub fn all() -> Vec<Obl> {
     let mut l = Vec::new();
+    c02::register(&mut l);
     c08::register(&mut l);
     c14::register(&mut l);
     l
